@@ -39,7 +39,7 @@ def _sccs(nodes):
 
     def succ(v):
         t, ch = nodes[v]
-        if t == "atom":
+        if t in ("atom", "const"):
             return ()
         return [abs(c) for c in ch if c is not None and c != 0]
 
@@ -73,7 +73,11 @@ def _sccs(nodes):
 def encode_formula(f, avar=atom_var, evidence_values=None):
     """dict node index -> z3 Bool: least-model meaning of every node of a (possibly cyclic)
     ground program as a function of its atoms.  0 -> True, None -> False handled by lit()."""
-    nodes = _formula_nodes(f)
+    return encode_nodes(_formula_nodes(f), avar)
+
+
+def encode_nodes(nodes, avar=atom_var):
+    """Same, for a plain node table index -> ('atom', id) | ('const', bool) | ('conj'|'disj', children)."""
     val = {}
     T, F = z3.BoolVal(True), z3.BoolVal(False)
 
@@ -90,7 +94,7 @@ def encode_formula(f, avar=atom_var, evidence_values=None):
         cyclic = len(comp) > 1
         for v in comp:
             t, ch = nodes[v]
-            if t != "atom":
+            if t not in ("atom", "const"):
                 for c in ch:
                     if c is not None and c != 0 and abs(c) in cs:
                         cyclic = True
@@ -101,6 +105,8 @@ def encode_formula(f, avar=atom_var, evidence_values=None):
             t, ch = nodes[v]
             if t == "atom":
                 return avar(ch)
+            if t == "const":
+                return T if ch else F
             parts = [lit(c, cur) for c in ch]
             if t == "conj":
                 return z3.And(*parts) if parts else T
